@@ -10,6 +10,7 @@ import Tx3Proofs.C01Datum
 import Tx3Proofs.C01Field
 import Tx3Proofs.C01Optional
 import Tx3Proofs.C01Map
+import Tx3Proofs.C01Blocks
 #print axioms Tx3.Lang.eval_int
 #print axioms Tx3.Lang.lower_int
 #print axioms Tx3.Lang.C01_int_fragment
@@ -56,3 +57,8 @@ import Tx3Proofs.C01Map
 #print axioms Tx3.C01_optional_output_error_kept
 #print axioms Tx3.Lang.C01_map_literal
 #print axioms Tx3.Lang.C01_map_literal_semantics
+#print axioms Tx3.C01_collateral_exact
+#print axioms Tx3.C01_collateral_member
+#print axioms Tx3.C01_collateral_only
+#print axioms Tx3.C01_reference_inputs_exact
+#print axioms Tx3.C01_reference_member
